@@ -517,3 +517,100 @@ def big_program(r, big=True):
       else:
         out += g.wrap(w, body, 0, False, "raise")
   return "\n".join(out) + "\n"
+
+
+# ---------------------------------------------------------------------------------------------------
+# adjacent and nested exception ranges: the synthetic POP_BLOCK of one entry sits right next to the synthetic
+# SETUP_EXCEPT_311 of the following one (try in try followed by a statement, try in a loop in a try, with in try,
+# consecutive try statements), with last body statements of every inline-cache width (pass / assignment / call /
+# attribute / subscript / binary op / await).
+
+LAST_STMTS = ["pass", "{v} = {w}", "{v} = 1", "{g}()", "{g}({w})", "o.{a}", "o.{a} = {w}", "{v} = o.{a}", "{v}[{w}]",
+              "{v} = {w} + 1", "{v} += 1", "{v} = {w} < 2", "del {v}", "{v}, {w} = {w}, {v}", "o.{a}({w})",
+              "{v} = [{w}]", "{v} = {g}", "return", "return {w}", "raise", "raise {g}", "continue", "break",
+              "assert {w}", "{v} = {w} if {g} else 0", "{v} = -{w}", "global {g}x"]
+
+
+def adjacent_ranges_program(r, n_funcs=6):
+  k = [0]
+
+  def nm(p):
+    k[0] += 1
+    return "%s%d" % (p, k[0])
+
+  def last(ind, in_loop, is_async):
+    while True:
+      t = r.choice(LAST_STMTS + (["await {g}()", "{v} = await {w}"] if is_async else []))
+      if t in ("continue", "break") and not in_loop:
+        continue
+      if t.startswith("global"):
+        continue
+      return "  " * ind + t.format(v=nm("v"), w=r.choice(["a", "b", "o"]), g=nm("g"), a=nm("a"))
+
+  def handler(ind, in_loop):
+    return "  " * ind + r.choice(["pass", "raise", "return", "return 1", nm("g") + "()"] +
+                                 (["continue", "break"] if in_loop else []))
+
+  def try_stmt(ind, depth, in_loop, is_async):
+    """try whose body is [optional stmts] + optional nested construct + a last statement"""
+    p = "  " * ind
+    out = [p + "try:"]
+    shape = r.choice(["plain", "nested-first", "nested-last", "nested-mid", "loop", "with", "two-nested"]) \
+        if depth < 3 else "plain"
+    if shape == "plain":
+      if r.random() < 0.5:
+        while True:
+          st = last(ind + 1, in_loop, is_async)
+          if st.strip().split()[0] not in ("return", "raise", "continue", "break"):
+            break
+        out.append(st)
+      out.append(last(ind + 1, in_loop, is_async))
+    elif shape == "nested-first":
+      out += try_stmt(ind + 1, depth + 1, in_loop, is_async)
+      out.append(last(ind + 1, in_loop, is_async))          # a statement of the outer try directly after the inner
+    elif shape == "nested-last":
+      out.append("  " * (ind + 1) + nm("g") + "()")
+      out += try_stmt(ind + 1, depth + 1, in_loop, is_async)
+    elif shape == "nested-mid":
+      out.append("  " * (ind + 1) + "%s = 1" % nm("v"))
+      out += try_stmt(ind + 1, depth + 1, in_loop, is_async)
+      out.append(last(ind + 1, in_loop, is_async))
+    elif shape == "two-nested":
+      out += try_stmt(ind + 1, depth + 1, in_loop, is_async)
+      out += try_stmt(ind + 1, depth + 1, in_loop, is_async)
+    elif shape == "loop":
+      out.append("  " * (ind + 1) + r.choice(["for %s in a:" % nm("v"), "while %s:" % nm("g")]))
+      out += try_stmt(ind + 2, depth + 1, True, is_async)
+      if r.random() < 0.5:
+        out.append(last(ind + 2, True, is_async))
+      if r.random() < 0.5:
+        out.append(last(ind + 1, in_loop, is_async))
+    else:
+      out.append("  " * (ind + 1) + "%swith %s%s:" % ("async " if is_async and r.random() < 0.4 else "", nm("g"),
+                                                    r.choice(["", " as " + nm("v")])))
+      if r.random() < 0.5:
+        out += try_stmt(ind + 2, depth + 1, in_loop, is_async)
+      out.append(last(ind + 2, in_loop, is_async))
+      if r.random() < 0.5:
+        out.append(last(ind + 1, in_loop, is_async))
+    j = r.random()
+    if j < 0.25:
+      out += [p + "finally:", "  " * (ind + 1) + nm("g") + "()"]
+    else:
+      for _ in range(r.randint(1, 2)):
+        out += [p + "except %s%s:" % (nm("E"), r.choice(["", " as ex"])), handler(ind + 1, in_loop)]
+      if j < 0.4:
+        out += [p + "else:", last(ind + 1, in_loop, is_async)]
+      if j > 0.8:
+        out += [p + "finally:", "  " * (ind + 1) + "%s = 0" % nm("v")]
+    return out
+
+  out = []
+  for i in range(n_funcs):
+    is_async = r.random() < 0.3
+    out.append("%sdef adj%d(o, a, b):" % ("async " if is_async else "", i))
+    for _ in range(r.randint(1, 3)):                           # consecutive try statements
+      out += try_stmt(1, 0, False, is_async)
+    out.append("  return a")
+    out.append("")
+  return "\n".join(out) + "\n"
